@@ -137,6 +137,13 @@ func init() {
 				step = 8
 			}
 			return []mon.Family{
+				{Name: "cold-start", N: 1, Serial: true, Run: func(w *mon.W, _ int) {
+					a, b := c09New(w, "", 0, 0), c09New(w, "\xff", 0, 8)
+					if a == nil || b == nil || !c09CheckCmp(w, a, a) || !c09CheckCmp(w, a, b) || !c09CheckCmp(w, b, a) || !c09CheckUpto(w, "", a) || !c09CheckUpto(w, "\xff\xff", b) || !c09CheckUpto(w, "", b) {
+						return
+					}
+					w.Bucket("cold-start")
+				}},
 				{Name: "universe-rows", N: rows / step, Run: func(w *mon.W, idx int) { c09Row(w, idx*step) }},
 				{Name: "keyzoo", N: c.Pick(12000, 1500000) / step, Run: c09KeyZoo},
 			}
